@@ -68,3 +68,8 @@ register("C14", ["c14"],
          "Static dominance, term and table checks of the multiplexer's flow-control and reuse mechanisms: in the inbound frame loop buffer allocation and frame hand-over are dominated by the count and byte permit acquisitions of exactly the allocated size (bounded by read_frame_size), frames carry their permits and Frame drops data before permits; semaphores come from the configured limits and Mux::run is dominated by verify(); stream counts per capability are the minimum of both sides' limits with consecutive ids and checked lookup; per iteration a new transient stream is handed out only after the previous one was closed, the limiter permit, the reservation and the OPEN exchange; on reuse the reader discards the cached partial frame and resets close_received, and stops at CLOSE; a census of narrowing casts. Isolation and ordering under all interleavings are not decided.",
          ["tokio semaphores/channels behave as documented", "ExclusiveLock hands the half back only when the previous Stream is dropped"],
          TRUSTED)
+
+register("C01", ["c01", "c02", "c03", "phase_gate", "c04", "c07", "c08"],
+         "Agreement itself (a statement over all schedules, Byzantine behaviours and crash points) is NOT decided by static analysis. This check decides that the four anchored safety mechanisms are intact and wired together on the current MIR: certificate provenance at every adoption site, the commit path (only adopted certificates finalize, block = certificate + hash-keyed cached payload, stored through the verifying engine manager), the vote being for the implied block, plus the imported rule sets: one vote per view and persist-before-send (C03), re-proposal rule (C02), certificate verification (C04), threshold arithmetic (C07), verified append-only store (C08). Breaking any of these breaks agreement; satisfying all of them does not prove it.",
+         ["the ChonkyBFT safety argument for the combination of the mechanisms (spec/)", "C07 lemma"],
+         TRUSTED)
